@@ -134,6 +134,12 @@ structure Input where
   storeImpl : String := ""           -- "fake" (in-memory) | "fs" (truststore.NewX509TrustStore over a directory)
   ctor : String := ""                -- New | NewWithOptions | NewVerifierWithOptions | NewFromConfig | NewOCIVerifierFromConfig
   revSupply : String := ""           -- validator | client | both (the client contradicts the validator) | none
+  -- how the truth of the authentic-timestamp validation is realised (round 6)
+  scheme : String := ""              -- "x509" (no countersignature: every chain certificate must be valid NOW) |
+                                     -- "signingAuthority" (every chain certificate must be valid at the signing time); "" = x509
+  chainLen : Nat := 0                -- certificates in the signature's chain, leaf first (1 = self-signed signing certificate); 0 = 2
+  badCert : Nat := 0                 -- when `timestampOk = false`: index of the certificate that is not valid at that time
+  badHow : String := ""              -- "expired" (before that time) | "notYetValid" (renewed: valid only after it)
   deriving Repr, FromJson, ToJson
 
 structure Result where
@@ -327,8 +333,18 @@ def revocationSource (supply : String) : String :=
   if supply == "validator" || supply == "both" then "validator"
   else if supply == "client" then "client" else "default"
 
+/-- validity of each chain certificate at the time the scheme prescribes, leaf first, as the
+concretisation mints them: all valid, except certificate `badCert` when the validation is to fail -/
+def chainValidity (i : Input) : List Bool :=
+  (List.range (if i.chainLen == 0 then 2 else i.chainLen)).map (fun k => i.timestampOk || k != i.badCert)
+
+/-- the authentic-timestamp validation (both schemes, no countersignature): EVERY certificate of
+the chain - first, middle, last or only - must be valid at the prescribed time -/
+def timestampTruth (valid : List Bool) : Bool := valid.all id
+
 /-- the concrete configuration realises the abstract scenario (the generator emits only such) -/
 def concretisationOK (i : Input) : Bool :=
+  (i.badCert < (if i.chainLen == 0 then 2 else i.chainLen)) &&
   (i.stores.isEmpty || (trustOf i.stores == i.trust &&
       i.stores.any (fun k => k == .anchor || k == .other || k == .empty || k == .broken))) &&
   (revocationSource i.revSupply != "default" || i.revocation == .ok) &&
